@@ -195,6 +195,16 @@ class FakeCtx:
 
     def request(self, msg):
         async def run():
+            if self.world.reply_latencies:
+                # the request reaches the accessory at once, its reply takes this long: two replies in flight can overtake each other
+                lat = self.world.reply_latencies.pop(0)
+                r = self.world.acc.handle(msg)
+                await asyncio.sleep(lat)
+                if self.shut:
+                    raise NetworkError("context shut down")
+                if r is None:
+                    await asyncio.get_running_loop().create_future()
+                return r
             await asyncio.sleep(self.world.latency)
             if self.shut:
                 raise NetworkError("context shut down")
@@ -218,6 +228,7 @@ class CoapWorld:
         self.ident.controllers[ios_id.encode()] = self.ios_ltpk
         self.acc = RefCoapAccessory(self.ident)
         self.latency = 0.01
+        self.reply_latencies = []
         self.contexts = []
         world = self
 
